@@ -19,6 +19,7 @@ import (
 	"github.com/LiskHQ/lisk-engine/pkg/p2p"
 
 	"verif/sim/simcontext"
+	"verif/sim/simfs"
 	"verif/sim/simkit"
 	"verif/sim/simrand"
 	"verif/sim/simrt"
@@ -85,6 +86,8 @@ type Hooks struct {
 	// the error process() returned and the number of sync requests it sent.
 	BeforeProcess func(n *Node)
 	Processed     func(n *Node, b *blockchain.Block, from p2p.PeerID, tipBefore *blockchain.BlockHeader, err error, rpcs int)
+	// NodeDied is called when node n was killed in the middle of a step (observers drop what they kept for that step).
+	NodeDied func(n *Node, what string)
 	// BeforeNodeStep is called before every call into node n.
 	BeforeNodeStep func(n *Node, what string)
 }
@@ -97,30 +100,31 @@ type Peer interface {
 }
 
 type Sim struct {
-	T        *rapid.T
-	P        *ChainParams
-	Nodes    []*Node
-	Extra    []Peer
-	Detached []*Node // nodes outside the network (crash victim and twin)
-	Vals     []*Validator
-	Net      NetConfig
-	Hooks    Hooks
-	q        eventHeap
-	seq      uint64
-	group    map[p2p.PeerID]int
-	seen     map[p2p.PeerID]map[[32]byte]bool
-	banned   map[p2p.PeerID]map[p2p.PeerID]bool
-	penalty  map[p2p.PeerID]map[p2p.PeerID]int
-	omu      sync.Mutex
-	outbox   []pub
-	cur      *Node
-	rpcMu    sync.Mutex
-	rpcPlan  []int // pre-drawn fault codes for the RPCs of the current node step
-	rpcLie   []int // pre-drawn lies of a Byzantine responder (-1: honest answer; d: a block d below the requester's finalized height)
-	rpcPos   []int // pre-drawn positions (per mille of the payload) for truncation / bit flip
-	rpcNext  int
-	rpcCount int
-	livelock *Livelock
+	T            *rapid.T
+	P            *ChainParams
+	Nodes        []*Node
+	Extra        []Peer
+	Detached     []*Node // nodes outside the network (crash victim and twin)
+	Vals         []*Validator
+	Net          NetConfig
+	Hooks        Hooks
+	q            eventHeap
+	seq          uint64
+	group        map[p2p.PeerID]int
+	seen         map[p2p.PeerID]map[[32]byte]bool
+	banned       map[p2p.PeerID]map[p2p.PeerID]bool
+	penalty      map[p2p.PeerID]map[p2p.PeerID]int
+	omu          sync.Mutex
+	outbox       []pub
+	cur          *Node
+	rpcMu        sync.Mutex
+	rpcPlan      []int // pre-drawn fault codes for the RPCs of the current node step
+	curCrashable bool  // the current step runs on a goroutine that may be killed
+	rpcLie       []int // pre-drawn lies of a Byzantine responder (-1: honest answer; d: a block d below the requester's finalized height)
+	rpcPos       []int // pre-drawn positions (per mille of the payload) for truncation / bit flip
+	rpcNext      int
+	rpcCount     int
+	livelock     *Livelock
 	// NodePanic is called when a step of node n panicked (the process would have died) or spun without end.
 	NodePanic        func(n *Node, what string, value interface{})
 	Steps            int
@@ -129,11 +133,15 @@ type Sim struct {
 	TraceOn          bool
 	genesisTime      uint32
 	Adv              *Adversary
+	OnNodeDied       func(n *Node)   // schedules the restart
 	TopicBlackout    map[string]bool // gossip topics on which nothing gets through at the moment (fault)
 	OnAdversaryBlock func(b *blockchain.Block)
 }
 
 func simrtNowUnix() int64 { return simrt.C.NowTrue().Unix() }
+
+// NodeUnixNow is what node n's (possibly skewed) clock reads.
+func NodeUnixNow(n *Node) int64 { return simrtNowUnixFor(n) }
 
 // simrtNowUnixFor is what node n's (possibly skewed) clock reads.
 func simrtNowUnixFor(n *Node) int64 { return simrt.C.NowTrue().Add(n.Skew).Unix() }
@@ -518,13 +526,18 @@ func (s *Sim) Step(n *Node, what string, fn func()) {
 		return
 	}
 	s.Steps++
+	if n.armPending && n.FS != nil {
+		n.armPending = false
+		n.FS.CrashIn(n.crashK, n.crashTear)
+		n.CrashArmed = true
+	}
 	s.cur = n
 	s.planRPC()
 	if s.Hooks.BeforeNodeStep != nil {
 		s.Hooks.BeforeNodeStep(n, what)
 	}
 	simrand.SetSource(func(k int) int { return 0 })
-	func() {
+	body := func() {
 		defer func() {
 			if r := recover(); r != nil {
 				if _, known := r.(simkit.KnownAbort); known {
@@ -555,8 +568,69 @@ func (s *Sim) Step(n *Node, what string, fn func()) {
 		if ll != nil {
 			panic(*ll)
 		}
-	}()
+	}
+	if (n.CrashArmed || n.AlwaysCrashable) && n.FS != nil {
+		// the step runs as the node's process: at the armed file-system call it dies with everything it started
+		s.curCrashable = true
+		crashed, pv := simfs.RunCrashable(n.FS, body)
+		s.curCrashable = false
+		if pv != nil {
+			panic(pv) // (rapid's control flow and known-finding aborts, re-raised on the simulator's goroutine)
+		}
+		if !crashed && n.FS.Disarm() {
+			crashed = true
+		}
+		if crashed {
+			s.nodeDied(n, what)
+		} else if n.Up && n.CrashArmed {
+			if n.ArmThisStepOnly {
+				n.CrashArmed, n.ArmThisStepOnly = false, false // the step did not get that far: the kill is called off
+			} else {
+				n.FS.CrashIn(n.crashK, n.crashTear) // not reached in this step: stays armed for the next one
+			}
+		}
+	} else {
+		body()
+	}
 	s.cur = nil
+}
+
+// ArmCrash arms node n's disk to kill the node at the k-th file-system call of one of its next steps.
+func (s *Sim) ArmCrash(n *Node, k, tear int, power bool) {
+	if !n.Up || n.FS == nil {
+		return
+	}
+	n.crashK, n.crashTear, n.CrashPower = k, tear, power
+	if s.cur == n && !s.curCrashable {
+		// asked for from inside a step of this node (which runs on the simulator's own goroutine): takes effect with the
+		// next step
+		n.armPending = true
+		return
+	}
+	n.FS.CrashIn(k, tear)
+	n.CrashArmed = true
+}
+
+func (s *Sim) nodeDied(n *Node, what string) {
+	s.Stats["crash_inside_step"]++
+	if why, ok := n.FS.Why.Load().(string); ok {
+		// which database the fatal call was on (reach probe)
+		for _, d := range []string{"blockchain.db", "generator.db", "state.db", "module.db"} {
+			if strings.Contains(why, d) {
+				simkit.Probe("killed_in_" + strings.SplitN(what, " ", 2)[0] + "_step_at_" + d)
+			}
+		}
+	}
+	n.CrashArmed = false
+	// what the process had handed to the network before it died is out
+	s.flushOutbox()
+	n.Stop(false, n.CrashPower)
+	if s.Hooks.NodeDied != nil {
+		s.Hooks.NodeDied(n, what)
+	}
+	if s.OnNodeDied != nil {
+		s.OnNodeDied(n)
+	}
 }
 
 func (s *Sim) collect(n *Node, what string) {
